@@ -2,6 +2,7 @@
 from lib import cfg
 from rules import common
 
+CRATES = ("agdb",)
 EXPLANATION = (
     "Static analysis by sibling comparison: each of the four SearchIterator::expand bodies is abstracted to its set of "
     "push events (container operation, element branch node/edge, whether guarded by `follow`, which graph accessor "
